@@ -381,6 +381,15 @@ def gen_fa(rng, cid, exact):
     return c
 
 
+def gen_fa_replay(rng, cid, N, D, d, T):
+    """fa_epsilon = 0: the loop runs exactly T rounds and never looks at the log-likelihood, so the extracted
+    fa_embed (inverse oracle = exact Gauss-Jordan, contract re-checked on every call) can be replayed"""
+    c = {"kind": "FA", "id": cid, "N": N, "D": D, "d": d, "maxiter": T, "eps": 0.0, "srand": rng.randrange(1 << 30),
+         "exact": True, "replay_model": True, "X": gen_points(rng, N, D, span=8, den=8, distinct=True)}
+    c["shift"] = [dyad(rng, -16, 16, 4) for _ in range(D)]
+    return c
+
+
 def shifted(c):
     s = dict(c)
     s["id"] = c["id"] + "t"
@@ -549,6 +558,7 @@ def eval_pairs(ctx, exe, mexe, cases, st):
         both += [c, shifted(c)]
     res = run_impl(ctx, exe, both)
     rp_exact = []
+    fa_replay = []
     for i, c in enumerate(cases):
         r0, r1 = res[2 * i], res[2 * i + 1]
         pc = public(c)
@@ -626,6 +636,8 @@ def eval_pairs(ctx, exe, mexe, cases, st):
             s = math.isqrt(D)
             if c["exact"] and s * s == D and finite:
                 rp_exact.append((c, r0, s))
+        if c["kind"] == "FA" and c.get("replay_model") and finite and "A0" in r0:
+            fa_replay.append((c, r0))
         if len(st.samples) < 6 and c["id"].endswith("0"):
             st.samples.append({k2: pc[k2] for k2 in ("kind", "N", "D", "d", "exact", "shift")})
     if rp_exact:
@@ -647,6 +659,39 @@ def eval_pairs(ctx, exe, mexe, cases, st):
             if not same:
                 ctx.mismatch(public(c), "random projection (exact stream): extracted model and implementation differ: "
                                         "model %s implementation %s" % (b[:2], r0["Y"][:2]))
+
+
+    if fa_replay:
+        text = []
+        for c, r0 in fa_replay:
+            t = ["FA %d %d %d %d" % (c["maxiter"], c["N"], c["D"], c["d"])]
+            for row in r0["A0"]:
+                t.append("A " + " ".join(frac_str(v) for v in row))
+            for row in c["X"]:
+                t.append("X " + " ".join(frac_str(v) for v in row))
+            text.append("\n".join(t) + "\n")
+        blocks = model_blocks(ctx, mexe, "".join(text), len(text))
+        for (c, r0), b in zip(fa_replay, blocks):
+            st.count("FA/model-replay")
+            orc = [line for line in b if line.startswith("ORACLE")]
+            w = orc[0].split() if orc else []
+            if len(w) != 7 or int(w[4]) != 0:
+                ctx.mismatch(public(c), "factor analysis replay: the inverse oracle broke its contract: %s" % orc)
+                continue
+            if int(w[6]) != 0:
+                st.count("FA/model-replay-singular")      # a singular matrix was inverted: nothing to compare
+                continue
+            try:
+                rows = [[float(Fraction(x)) for x in line.split()[1:]] for line in b if line.startswith("ROW")]
+                worst = max(abs(y - m) / max(1.0, abs(y), abs(m)) for ry, rm in zip(r0["Y"], rows) for y, m in zip(ry, rm))
+                same = len(rows) == c["N"] and all(len(rw) == c["d"] for rw in rows) and worst <= 1e-9
+            except (ValueError, ZeroDivisionError):
+                same, worst = False, float("nan")
+            if not same:
+                ctx.mismatch(public(c), "factor analysis: extracted fa_embed (exact rationals, %s oracle calls) and the "
+                                        "implementation differ by %.3g relative" % (w[2], worst))
+            else:
+                st.nontrivial.add(json.dumps(["FA-replay", c["N"], c["D"], c["d"], c["maxiter"], c["srand"]]))
 
 
 def eval_moments(ctx, exe_plain, rng, st, reps):
@@ -700,6 +745,7 @@ def generate(ctx, rng, budget):
     meas += [gen_spe_stress(rng, "l%d" % i, False) for i in range(budget["lstress"])]
     pairs = [gen_rp(rng, "r%d" % i, i % 2 == 0) for i in range(budget["rp"])]
     pairs += [gen_fa(rng, "f%d" % i, i % 3 != 2) for i in range(budget["fa"])]
+    pairs += [gen_fa_replay(rng, "q%d" % i, *shape) for i, shape in enumerate(budget["fa_replay"])]
     return spe, bad, meas, pairs
 
 
@@ -756,8 +802,11 @@ def run(ctx):
         raise box["err"]
     mexe = box["mexe"]
     st = Stats()
-    budget = ({"spe": 260, "bad": 30, "gstress": 40, "lstress": 30, "rp": 60, "fa": 45, "reps": 120000} if quick else
-              {"spe": 3000, "bad": 200, "gstress": 300, "lstress": 200, "rp": 600, "fa": 400, "reps": 2000000})
+    budget = ({"spe": 260, "bad": 30, "gstress": 40, "lstress": 30, "rp": 60, "fa": 45, "reps": 120000,
+               "fa_replay": [(4, 2, 1, 1), (8, 3, 2, 1), (4, 1, 1, 1), (8, 2, 1, 1), (4, 2, 1, 2), (2, 1, 1, 2)]} if quick else
+              {"spe": 3000, "bad": 200, "gstress": 300, "lstress": 200, "rp": 600, "fa": 400, "reps": 2000000,
+               "fa_replay": [(4, 2, 1, 1), (8, 3, 2, 1), (4, 1, 1, 1), (8, 2, 1, 1), (4, 2, 1, 2), (2, 1, 1, 2),
+                             (16, 4, 3, 1), (8, 3, 1, 1), (4, 3, 2, 1), (4, 2, 1, 3), (8, 2, 1, 2), (16, 2, 1, 1)]})
     spe, bad, meas, pairs = generate(ctx, rng, budget)
     corp = corpus_cases(ctx)
     st.hist["corpus"] = len(corp)
@@ -768,7 +817,7 @@ def run(ctx):
     judge_measured(ctx, st)
     if ctx.is_unshown() and not ctx.has_violation():
         # search phase: the property is no longer shown; look for a concrete input violating the spec
-        big = {"spe": 1500, "bad": 50, "gstress": 120, "lstress": 80, "rp": 300, "fa": 200}
+        big = {"spe": 1500, "bad": 50, "gstress": 120, "lstress": 80, "rp": 300, "fa": 200, "fa_replay": []}
         spe2, bad2, meas2, pairs2 = generate(ctx, rng, big)
         for c in spe2:
             c["id"] = "x" + c["id"]
